@@ -532,6 +532,21 @@ pub fn generate(p: &GenParams, seed: u64) -> Case {
                 Stmt::Return(6),
             ];
         }
+        if p.refunder_contract && i == 3 {
+            // "fan-out": calls three of the first four table entries (senders, most of them
+            // delegated in the reserve families) with the original arguments, so one transaction
+            // runs delegated code - and may debit - in several delegated accounts
+            prog.inits.clear();
+            prog.stmts = vec![
+                Stmt::ModK(4, 0, 4),
+                Stmt::Call { kind: progs::CallKind::Call, a: 4, raw: false, v: 7, vmax: 1, ds: 5, dr: 6 },
+                Stmt::ModK(4, 1, 4),
+                Stmt::Call { kind: progs::CallKind::Call, a: 4, raw: false, v: 7, vmax: 1, ds: 5, dr: 6 },
+                Stmt::ModK(4, 2, 4),
+                Stmt::Call { kind: progs::CallKind::Call, a: 4, raw: false, v: 7, vmax: 1, ds: 5, dr: 6 },
+                Stmt::Return(6),
+            ];
+        }
         if p.destroy_flip_contract && i == 0 {
             use progs::Arith::{Add, Eq};
             prog.inits.clear();
